@@ -91,9 +91,9 @@ Properties/C08.vos Properties/C08.vok Properties/C08.required_vos: Properties/C0
 Properties/C10.vo Properties/C10.glob Properties/C10.v.beautified Properties/C10.required_vo: Properties/C10.v Model/Types.vo Model/Book.vo Model/Obs.vo Model/Rng.vo Model/Env.vo Proofs/EnvProps.vo
 Properties/C10.vio: Properties/C10.v Model/Types.vio Model/Book.vio Model/Obs.vio Model/Rng.vio Model/Env.vio Proofs/EnvProps.vio
 Properties/C10.vos Properties/C10.vok Properties/C10.required_vos: Properties/C10.v Model/Types.vos Model/Book.vos Model/Obs.vos Model/Rng.vos Model/Env.vos Proofs/EnvProps.vos
-Properties/C11.vo Properties/C11.glob Properties/C11.v.beautified Properties/C11.required_vo: Properties/C11.v Model/Types.vo Model/Book.vo Model/Obs.vo Model/Rng.vo Model/Env.vo Model/EnvObs.vo Proofs/EnvProps.vo
-Properties/C11.vio: Properties/C11.v Model/Types.vio Model/Book.vio Model/Obs.vio Model/Rng.vio Model/Env.vio Model/EnvObs.vio Proofs/EnvProps.vio
-Properties/C11.vos Properties/C11.vok Properties/C11.required_vos: Properties/C11.v Model/Types.vos Model/Book.vos Model/Obs.vos Model/Rng.vos Model/Env.vos Model/EnvObs.vos Proofs/EnvProps.vos
+Properties/C11.vo Properties/C11.glob Properties/C11.v.beautified Properties/C11.required_vo: Properties/C11.v Model/Types.vo Model/Book.vo Model/Obs.vo Model/Rng.vo Model/Env.vo Model/EnvObs.vo Proofs/EnvProps.vo Proofs/Ledger.vo Proofs/StepVolume.vo
+Properties/C11.vio: Properties/C11.v Model/Types.vio Model/Book.vio Model/Obs.vio Model/Rng.vio Model/Env.vio Model/EnvObs.vio Proofs/EnvProps.vio Proofs/Ledger.vio Proofs/StepVolume.vio
+Properties/C11.vos Properties/C11.vok Properties/C11.required_vos: Properties/C11.v Model/Types.vos Model/Book.vos Model/Obs.vos Model/Rng.vos Model/Env.vos Model/EnvObs.vos Proofs/EnvProps.vos Proofs/Ledger.vos Proofs/StepVolume.vos
 Properties/C14.vo Properties/C14.glob Properties/C14.v.beautified Properties/C14.required_vo: Properties/C14.v Model/Types.vo Model/Book.vo Model/Obs.vo Model/Rng.vo Model/Env.vo Spec/RefBook.vo Proofs/EnvProps.vo Proofs/Refine.vo Proofs/Volumes.vo Proofs/MarketInv.vo
 Properties/C14.vio: Properties/C14.v Model/Types.vio Model/Book.vio Model/Obs.vio Model/Rng.vio Model/Env.vio Spec/RefBook.vio Proofs/EnvProps.vio Proofs/Refine.vio Proofs/Volumes.vio Proofs/MarketInv.vio
 Properties/C14.vos Properties/C14.vok Properties/C14.required_vos: Properties/C14.v Model/Types.vos Model/Book.vos Model/Obs.vos Model/Rng.vos Model/Env.vos Spec/RefBook.vos Proofs/EnvProps.vos Proofs/Refine.vos Proofs/Volumes.vos Proofs/MarketInv.vos
@@ -175,6 +175,9 @@ Proofs/FloatSym.vos Proofs/FloatSym.vok Proofs/FloatSym.required_vos: Proofs/Flo
 Proofs/MarketInv.vo Proofs/MarketInv.glob Proofs/MarketInv.v.beautified Proofs/MarketInv.required_vo: Proofs/MarketInv.v Model/Types.vo Model/Map.vo Model/Side.vo Model/Book.vo Model/Obs.vo Model/Rng.vo Model/Env.vo Spec/RefBook.vo Proofs/Basic.vo Proofs/Refine.vo Proofs/Volumes.vo Proofs/Views.vo Proofs/Reload.vo Proofs/EnvProps.vo
 Proofs/MarketInv.vio: Proofs/MarketInv.v Model/Types.vio Model/Map.vio Model/Side.vio Model/Book.vio Model/Obs.vio Model/Rng.vio Model/Env.vio Spec/RefBook.vio Proofs/Basic.vio Proofs/Refine.vio Proofs/Volumes.vio Proofs/Views.vio Proofs/Reload.vio Proofs/EnvProps.vio
 Proofs/MarketInv.vos Proofs/MarketInv.vok Proofs/MarketInv.required_vos: Proofs/MarketInv.v Model/Types.vos Model/Map.vos Model/Side.vos Model/Book.vos Model/Obs.vos Model/Rng.vos Model/Env.vos Spec/RefBook.vos Proofs/Basic.vos Proofs/Refine.vos Proofs/Volumes.vos Proofs/Views.vos Proofs/Reload.vos Proofs/EnvProps.vos
+Proofs/StepVolume.vo Proofs/StepVolume.glob Proofs/StepVolume.v.beautified Proofs/StepVolume.required_vo: Proofs/StepVolume.v Model/Types.vo Model/Map.vo Model/Side.vo Model/Book.vo Model/Obs.vo Model/Rng.vo Model/Env.vo Proofs/Basic.vo Proofs/Ledger.vo Proofs/EnvProps.vo
+Proofs/StepVolume.vio: Proofs/StepVolume.v Model/Types.vio Model/Map.vio Model/Side.vio Model/Book.vio Model/Obs.vio Model/Rng.vio Model/Env.vio Proofs/Basic.vio Proofs/Ledger.vio Proofs/EnvProps.vio
+Proofs/StepVolume.vos Proofs/StepVolume.vok Proofs/StepVolume.required_vos: Proofs/StepVolume.v Model/Types.vos Model/Map.vos Model/Side.vos Model/Book.vos Model/Obs.vos Model/Rng.vos Model/Env.vos Proofs/Basic.vos Proofs/Ledger.vos Proofs/EnvProps.vos
 Properties/C01.vo Properties/C01.glob Properties/C01.v.beautified Properties/C01.required_vo: Properties/C01.v Model/Types.vo Model/Map.vo Model/Side.vo Model/Book.vo Model/Obs.vo Spec/RefBook.vo Proofs/Ledger.vo Proofs/Refine.vo Proofs/RefProps.vo Proofs/Volumes.vo Proofs/Reload.vo Proofs/Progress.vo
 Properties/C01.vio: Properties/C01.v Model/Types.vio Model/Map.vio Model/Side.vio Model/Book.vio Model/Obs.vio Spec/RefBook.vio Proofs/Ledger.vio Proofs/Refine.vio Proofs/RefProps.vio Proofs/Volumes.vio Proofs/Reload.vio Proofs/Progress.vio
 Properties/C01.vos Properties/C01.vok Properties/C01.required_vos: Properties/C01.v Model/Types.vos Model/Map.vos Model/Side.vos Model/Book.vos Model/Obs.vos Spec/RefBook.vos Proofs/Ledger.vos Proofs/Refine.vos Proofs/RefProps.vos Proofs/Volumes.vos Proofs/Reload.vos Proofs/Progress.vos
